@@ -51,7 +51,11 @@ def _collapse_invariants(
         invariants.extend(namespace[invariants_dunder])
 
     # Change the final invariants in the namespace
-    if invariants:
+    #
+    # The list has to be set in the namespace even if it is empty as soon as one of the bases defines it.
+    # Otherwise the class would share the (empty) list object with the base through the inheritance, and
+    # the invariants added later to the class (with a decorator) would be appended to the list of the base.
+    if invariants or any(hasattr(base, invariants_dunder) for base in bases):
         namespace[invariants_dunder] = invariants
 
     # endregion
